@@ -181,15 +181,7 @@ end
 def nbtFieldDyn : Rd (DynBT.Val × Nat) := fun s =>
   match DynBT.decodeDoc false s with
   | (.ok (_, _, v), s') => (.ok (v, s.flat.length - s'.flat.length), s')
-  | (.err, s') =>
-    match Rd.readByte s with
-    | (.ok t, s1) =>
-      if t = 9 then
-        match endPartial (s1.flat.length + 2) s1 with
-        | some (v, se) => (.ok (v, s.flat.length - se.flat.length), se)     -- `errors.Is(err, nbt.ErrEND)`: success
-        | none => (.err, s')
-      else (.err, s')
-    | _ => (.err, s')
+  | (.err, s') => (.err, s')   -- since the repair of NBTField.ReadFrom only a LONE TAG_End (handled by decodeDoc) is mapped to success
   | (.panic, s') => (.panic, s')
 
 end GoMC.Model.Registry
